@@ -21,6 +21,8 @@ struct Plan : sim::PlanBase {
   int variant = 0;         // tool specific option bits
   int block = 0;           // block length (csg_stat)
   int vol_jitter = 0;      // 1: the box volume differs from frame to frame
+  int lattice = 0;         // 1: single-bead molecules on distinct sites of four lines with spacing 0.25 nm in a 2.0 nm box, GRO format:
+                           //    every pair distance inside the cut-off is exactly 0.25 or 0.5, all per-frame sums are exact in floating point
   long sparse_mask = 0;    // bit f set: frame f+1 places the molecules on a lattice wider than any cut-off (no inter-molecular pair)
   long alloc_stride = 0;   // > 0: every alloc_stride-th C++ allocation of an evaluating worker is a decision point
 };
@@ -36,6 +38,7 @@ extern const char *engine_name;
 extern const bool ordered;             // true: outputs must be byte-identical to --nt 1
 extern const char *stdout_marker;      // lines of the tool's stdout containing this text are compared numerically (nullptr: none)
 extern const char *stdout_branch_marker; // the number of stdout lines containing this text tells which numerical branch the tool took (nullptr: none)
+extern const bool exact_lattice_plans;   // the tool's accumulations are exact on lattice plans: outputs must then be byte-identical even in unordered mode
 extern const double conditioning_gate;  // numbers are compared only if the perturbed reference moves them by less than this (relative)
 extern const double numeric_rel_tol;   // unordered mode: relative tolerance of the numeric comparison
 extern bool g_perturb;                 // gen_trajectory moves every bead by one unit of the last printed digit, alternating in sign (conditioning reference)
